@@ -533,9 +533,13 @@ def run(ck):
     if pm.returncode != 0:
         ck.violation("driver-crash", "the model driver aborted", {"stderr": pm.stderr[-2000:]}, False)
     model = pm.stdout.splitlines()
-    for (k, err) in crashes[:3]:
+    crash_keys = set()
+    for (k, err) in crashes:
         t, q = index[k]
         op = "tab" if q is None else q[0]
+        if op in crash_keys:
+            continue
+        crash_keys.add(op)
         strictly = all(t.X[j] < t.X[j + 1] for j in range(t.n - 1))
         kind = "unknown"
         for w in ("heap-buffer-overflow", "stack-buffer-overflow", "SEGV", "runtime error", "terminate called", "Assertion"):
